@@ -194,8 +194,15 @@ def _state_flag_justifies(kv: Any, parse: ast.AST, sub: ast.Subscript) -> bool:
     passthrough = False
     for x in ast.walk(parse):
         if isinstance(x, ast.If) and x.body and isinstance(x.body[-1], ast.Raise) and isinstance(x.test, ast.BoolOp) and isinstance(x.test.op, ast.And):
-            txt = [U(v) for v in x.test.values]
-            if f'{flag} is not {k_none}' in txt and any(t.endswith('is not NEWLINE') or t.endswith('is not Token.NEWLINE') for t in txt):
+            def _is_newline(e: ast.AST) -> bool:
+                if dotted(e) == 'Token.NEWLINE':
+                    return True
+                # a local alias (`NEWLINE: Final = Token.NEWLINE`)
+                return isinstance(e, ast.Name) and any(isinstance(a, (ast.Assign, ast.AnnAssign)) and getattr(a, 'value', None) is not None and dotted(a.value) == 'Token.NEWLINE'
+                                                       and any(isinstance(t, ast.Name) and t.id == e.id for t in (a.targets if isinstance(a, ast.Assign) else [a.target])) for a in ast.walk(parse))
+            flag_live = any(isinstance(v, ast.Compare) and len(v.ops) == 1 and isinstance(v.ops[0], ast.IsNot) and dotted(v.left) == flag and dotted(v.comparators[0]) == k_none for v in x.test.values)
+            only_nl = any(isinstance(v, ast.Compare) and len(v.ops) == 1 and isinstance(v.ops[0], ast.IsNot) and _is_newline(v.comparators[0]) for v in x.test.values)
+            if flag_live and only_nl:
                 passthrough = True
     return passthrough
 
@@ -463,7 +470,8 @@ def run(ctx: Any, prog: Program) -> None:
     ctx.check('C03.K5', any(dotted(b) == 'TokenSyntaxError' for b in kve.bases), kv, kve, 'KeyValError must derive from TokenSyntaxError', text='KeyValError base')
     for n in walk_no_nested(parse):
         if isinstance(n, ast.Raise):
-            ok = isinstance(n.exc, ast.Call) and dotted(n.exc.func) in ('tokenizer.error', 'KeyValError')
+            tok_vars = {t.id for a in ast.walk(parse) if isinstance(a, ast.Assign) and any(c is a.value or c in ast.walk(a.value) for c in tcalls) for t in a.targets if isinstance(t, ast.Name)} | {'tokenizer'}
+            ok = isinstance(n.exc, ast.Call) and (dotted(n.exc.func) == 'KeyValError' or (isinstance(n.exc.func, ast.Attribute) and n.exc.func.attr == 'error' and dotted(n.exc.func.value) in tok_vars))
             ctx.check('C03.K5', ok, kv, n, 'Keyvalues.parse may raise only tokenizer.error(...) or KeyValError(...)')
     # implicit IndexError: every constant-index read of a sequence in Keyvalues.parse is inside `try ... except IndexError`, or behind a
     # non-emptiness test of that sequence (earlier operand of the same `and`, an enclosing `if`, or a preceding `if not seq: raise/return`)
